@@ -3,7 +3,7 @@
 import json, os, sys
 VERIF = os.path.dirname(os.path.dirname(os.path.abspath(__file__)))
 sys.path.insert(0, os.path.join(VERIF, 'vp'))
-from registry import CHECKS, NOT_APPLICABLE, ENGINES, HOOK_COMMITS
+from registry import CLAIMED as CHECKS, NOT_APPLICABLE, ENGINES, HOOK_COMMITS
 
 props = [json.loads(l) for l in open(os.path.join(VERIF, 'properties.jsonl'))]
 ids = [p['id'] for p in props]
